@@ -95,6 +95,9 @@ CLAIMED['C13'] = (
     'fires only in ESTABLISHED once start_dpd_at has passed and sends an empty INFORMATIONAL request, the liveness '
     'timer is reset only by protected input (C03 clause); check_rekey_ike_sa_timer acts only in ESTABLISHED, sends '
     'the delete after delete_ike_sa_at and the rekey after rekey_ike_sa_at.',
+    'BOUNDED (labelled, not proved): 32 C-encoded EXPIRE events are parsed and handed to the real '
+    'IkeSaController.process_expire with IkeSa replaced by a recording stub: routed to the IKE_SA that tracks the SPI '
+    '(inbound or outbound) with the event\'s SPI and hard flag, to nobody otherwise.  '
     'Not decided: constructor arming (IkeSa.__init__), request identity across the INVALID_KE retry branches of '
     'process_create_child_sa_response (F6, not yet examined by the checker), the controller sweep and the crash-bound '
     'lemma; generate_rekey_ike_sa_request is an ASSUMED contract.' + TIERB_NOTE,
@@ -307,11 +310,14 @@ CLAIMED['C15'] = (
     'not proved): the real Xfrm.create_policies / create_policy / flush_policies / flush_sas are run on a grid and the '
     'datagrams decoded by the C oracle compiled from the UAPI headers -- per protect entry exactly one outbound policy '
     'with index << 3 | XFRM_POLICY_OUT and one inbound and one forward policy with the configured selectors, protocol, '
-    'mode and tunnel endpoints; 288 C-encoded ACQUIRE events are parsed by the real code and the fields '
-    'IkeSaController.process_acquire reads are compared.',
+    'mode and tunnel endpoints; 288 C-encoded ACQUIRE events (inner and outer address families mixed both ways) are parsed '
+    'by the real code and handed to the real IkeSaController.process_acquire with IkeSa replaced by a recording stub: the '
+    'IKE_SA with the template\'s peer is re-used, else one is created as initiator with the configuration for (saddr, '
+    'id.daddr); it receives TSi/TSr denoting exactly the flow the kernel named and index = policy.index >> 3; no other '
+    'IKE_SA is touched.',
     'Not decided: IkeSaController.__init__ (flush, then policies for every connection) and close(), '
-    'IkeSaController.process_acquire (ctypes event objects: peer / connection lookup, re-use of an IKE_SA with the peer, '
-    'index >> 3) are outside the VC generator; the two request generators are ASSUMED contracts, so "negotiated with that '
+    'IkeSaController.process_acquire (ctypes event objects: outside the VC generator) is decided only by the bounded '
+    'item above, never counted as proved; the two request generators are ASSUMED contracts, so "negotiated with that '
     'entry\'s selectors" is decided up to the hand-over.  (Seen: the `_replace` of the proposal without DH transforms in '
     'process_acquire discards its result.)' + TIERB_NOTE,
     'DESIGN.md section 6 C15')
